@@ -78,6 +78,15 @@ def rand_history(rng, n):
 
 
 def generate(tier, rng):
+    # sizes around the chunking thresholds of update_cache (>= 2000 ids are read in int(n/1000) chunks)
+    for n in ([2001] if tier == "quick" else [1999, 2000, 2001, 2999, 3001, 4567]):
+        yield {"bulk": n}
+    # the chunking helper on its own: all (n, k) with n <= 40, k <= 12 (incl. k = 0 and k > n), and random larger ones
+    grid = [(n, k) for n in range(0, 41) for k in range(0, 13)]
+    for i in range(0, len(grid), 40):
+        yield {"chunks": grid[i:i + 40]}
+    for _ in range(10 if tier == "quick" else 200):
+        yield {"chunks": [(rng.randrange(0, 5000), rng.randrange(1, 120)) for _ in range(20)]}
     depth = 3 if tier == "quick" else 4
     alpha = alphabet()
     for k in range(1, depth + 1):
@@ -93,6 +102,12 @@ def search(rng, deadline):
 
 
 def shrink(case):
+    if "bulk" in case:
+        return
+    if "chunks" in case:
+        for i in range(len(case["chunks"])):
+            yield {"chunks": case["chunks"][:i] + case["chunks"][i + 1:]}
+        return
     ops = case["ops"]
     for i in range(len(ops)):
         yield {"ops": ops[:i] + ops[i + 1:]}
@@ -158,8 +173,81 @@ def expected_view(truth):
     }
 
 
+def run_bulk(case, ctx):
+    """Oracle-only case: a workspace large enough for update_cache() to read the state points in several
+    chunks (the code splits the ids to read into int(n/1000) chunks when there are 2000 or more)."""
+    import signac
+    from harness.ws_common import ref_id
+
+    n = case["bulk"]
+    path = ctx.fresh_dir("c08b")
+    oracle = []
+    try:
+        signac.init_project(path)
+        ws = os.path.join(path, "workspace")
+        os.makedirs(ws, exist_ok=True)
+        truth = {}
+        for i in range(n):
+            sp = {"i": i}
+            jid = ref_id(sp)
+            os.mkdir(os.path.join(ws, jid))
+            with open(os.path.join(ws, jid, "signac_statepoint.json"), "w") as f:
+                f.write(json.dumps(sp))
+            truth[jid] = sp
+        project = signac.Project(path)
+        r = project.update_cache()
+        cache, raw = read_cache_file(path)
+        if cache is None or sorted(cache) != sorted(truth):
+            missing = sorted(set(truth) - set(cache or {}))
+            oracle.append("update_cache() over %d new jobs returned %r; the cache file lacks %d of the workspace ids (e.g. %s) "
+                          "and lists %d unknown ones" % (n, r, len(missing), missing[:2], len(set(cache or {}) - set(truth))))
+        elif any(cache[i] != truth[i] for i in truth):
+            oracle.append("update_cache() over %d jobs: a cached state point differs from the file" % n)
+        r2 = project.update_cache()
+        _, raw2 = read_cache_file(path)
+        if r2 is not None or raw2 != raw:
+            oracle.append("an immediate second update_cache() over %d jobs returned %r / rewrote the file" % (n, r2))
+        fresh = signac.Project(path)
+        if len(fresh) != n or len(fresh.find_jobs({"i": {"$gte": 0}})) != n:
+            oracle.append("fresh session with cache: len %d, find_jobs %d, workspace holds %d" % (
+                len(fresh), len(fresh.find_jobs({"i": {"$gte": 0}})), n))
+    finally:
+        ctx.cleanup(path)
+    return {"model": [], "impl": [], "oracle": oracle[:3], "tags": ["bulk=%d" % n], "key": "bulk%d" % n}
+
+
+def run_chunks(case, ctx):
+    """`_split_and_print_progress` itself against the Lean `Chunks.splitChunks` (proved to cover its input)."""
+    import signac.project as SP
+
+    fn = getattr(SP, "_split_and_print_progress", None)
+    model, impl, oracle = [], [], []
+    for n, k in case["chunks"]:
+        xs = list(range(n))
+        try:
+            cs = list(fn(xs, num_chunks=k, write=lambda m: None)) if fn else None
+            tok = " ".join("%d:%d" % (c[0] if c else 0, len(c)) for c in cs)
+            if [x for c in cs for x in c] != xs:
+                oracle.append("_split_and_print_progress(range(%d), %d) yields chunks that do not concatenate to the input "
+                              "(%d of %d items)" % (n, k, sum(len(c) for c in cs), n))
+        except ValueError:
+            tok = "ValueError"
+        except Exception as e:  # noqa: BLE001
+            tok = "EXC:" + exc_name(e)
+            oracle.append("_split_and_print_progress(range(%d), %d) raised %s" % (n, k, exc_name(e)))
+        model.append("run chunks %d %d" % (n, k))
+        impl.append(tok)
+    return {"model": model, "impl": impl, "oracle": oracle[:3],
+            "tags": ["chunks"], "key": "chunks%r" % (case["chunks"][:3],)}
+
+
 def run_case(case, ctx):
     import signac
+
+    if "bulk" in case:
+        return run_bulk(case, ctx)
+    if "chunks" in case:
+        return run_chunks(case, ctx)
 
     path = ctx.fresh_dir("c08")
     oracle, tags = [], set()
